@@ -1011,3 +1011,114 @@ pub fn render_dsl(adef: &Value) -> Result<String, String> {
     }
     Ok(out)
 }
+
+#[cfg(test)]
+mod tests {
+    use super::*;
+    use serde_json::json;
+    use std::str::FromStr;
+
+    /// MIR `Debug` text per syntax, produced by the *real* front ends on the rendered text.
+    fn mirs(adef: &Value) -> [Result<String, String>; 4] {
+        let dsl = render(adef, "dsl").unwrap();
+        let js = render(adef, "json").unwrap();
+        let ya = render(adef, "yaml").unwrap();
+        let to = render(adef, "toml").unwrap();
+        [
+            proc_macro2::TokenStream::from_str(&dsl)
+                .map_err(|e| format!("lex: {e}\n{dsl}"))
+                .and_then(|t| device_driver_generation::_private_transform_dsl_mir(t).map_err(|e| format!("{e}\n{dsl}")))
+                .map(|m| format!("{m:?}")),
+            device_driver_generation::_private_transform_json_mir(&js).map(|m| format!("{m:?}")).map_err(|e| format!("{e:#}\n{js}")),
+            device_driver_generation::_private_transform_yaml_mir(&ya).map(|m| format!("{m:?}")).map_err(|e| format!("{e:#}\n{ya}")),
+            device_driver_generation::_private_transform_toml_mir(&to).map(|m| format!("{m:?}")).map_err(|e| format!("{e:#}\n{to}")),
+        ]
+    }
+
+    fn sample() -> Value {
+        serde_json::from_str(
+            r#"{
+            "config": {"register_address_type": "i16", "command_address_type": "u8", "buffer_address_type": "u8",
+                       "default_byte_order": "BE", "name_word_boundaries": ["Underscore", "Hyphen"], "defmt_feature": "d\"x"},
+            "objects": [
+                {"kind": "buffer", "name": "B0", "access": "RO", "address": "0"},
+                {"kind": "register", "name": "Foo", "description": "line1\nline2 \"q\" \\ \u00e9 \u0001 \u007f", "cfg": "unix",
+                 "access": "RW", "byte_order": "LE", "bit_order": "MSB0", "address": "-3", "size_bits": 16,
+                 "reset": {"array": [1, 2]}, "repeat": {"count": "3", "stride": "-2"},
+                 "allow_bit_overlap": true, "allow_address_overlap": false,
+                 "fields": [
+                    {"name": "flag", "base": "bool", "start": 0},
+                    {"name": "mode", "access": "RO", "base": "uint", "start": 1, "end": 3,
+                     "conversion": {"enum": {"name": "Mode", "variants": [
+                        {"name": "A", "value": "0"}, {"name": "B", "value": null},
+                        {"name": "C", "value": "default", "description": "the C"},
+                        {"name": "D", "cfg": "windows", "value": "catch_all"},
+                        {"name": "E", "cfg": "unix", "value": null}]}, "try": false}},
+                    {"name": "level", "cfg": "unix", "description": "lvl", "base": "int", "start": 4, "end": 12,
+                     "conversion": {"type": "crate::Level", "try": true}}]},
+                {"kind": "buffer", "name": "B1", "address": "9"},
+                {"kind": "command", "name": "Cmd", "address": "5", "size_bits_in": 8, "size_bits_out": 8,
+                 "fields_in": [{"name": "x", "base": "uint", "start": 0, "end": 8}], "fields_out": []},
+                {"kind": "command", "name": "Basic", "address": "6", "basic": true},
+                {"kind": "block", "name": "Blk", "address_offset": "32", "repeat": {"count": "2", "stride": "16"}, "objects": [
+                    {"kind": "register", "name": "Inner", "address": "1", "size_bits": 8, "reset": {"int": "5"}, "fields": []},
+                    {"kind": "block", "name": "Deep", "objects": []}]},
+                {"kind": "ref", "name": "FooRef", "description": "r", "target": "Foo",
+                 "override": {"kind": "register", "access": "WO", "address": "40", "reset": {"int": "7"},
+                              "repeat": {"count": "2", "stride": "1"}, "allow_address_overlap": true}},
+                {"kind": "ref", "name": "CmdRef", "target": "Cmd", "override": {"kind": "command", "address": "41"}},
+                {"kind": "ref", "name": "BlkRef", "cfg": "unix", "target": "Blk", "override": {"kind": "block", "address_offset": "64"}}
+            ]}"#,
+        )
+        .unwrap()
+    }
+
+    #[test]
+    fn same_mir_in_all_four_syntaxes() {
+        let [dsl, json, yaml, toml] = mirs(&sample());
+        let json = json.unwrap();
+        assert_eq!(json, yaml.unwrap());
+        assert_eq!(json, toml.unwrap());
+        assert_eq!(json, dsl.unwrap());
+    }
+
+    #[test]
+    fn empty_device_renders_and_parses() {
+        for r in mirs(&json!({"config": {}, "objects": []})) {
+            r.unwrap();
+        }
+    }
+
+    #[test]
+    fn illegal_override_keys_are_rejected_everywhere() {
+        for key in ["byte_order", "bit_order", "size_bits", "allow_bit_overlap", "fields"] {
+            let adef = json!({"config": {}, "objects": [
+                {"kind": "register", "name": "Base", "address": "1", "size_bits": 8, "fields": []},
+                {"kind": "ref", "name": "R", "target": "Base", "override": {"kind": "register", "illegal": [key]}}]});
+            for r in mirs(&adef) {
+                assert!(r.is_err(), "{key} accepted");
+            }
+        }
+    }
+
+    #[test]
+    fn toml_keeps_key_order_with_scalars_after_maps() {
+        // A scalar after a nested map forces the nested map inline.
+        let m = M::Map(vec![
+            ("a".into(), M::Map(vec![("x".into(), M::Map(vec![("y".into(), M::Int("1".into()))]))])),
+            ("b".into(), M::Int("2".into())),
+            ("c".into(), M::Map(vec![("z".into(), M::Map(vec![]))])),
+        ]);
+        let text = emit_toml(&m).unwrap();
+        assert_eq!(text, "\"a\" = { \"x\" = { \"y\" = 1 } }\n\"b\" = 2\n\n[\"c\"]\n\"z\" = {}\n");
+    }
+
+    #[test]
+    fn malformed_adef_is_an_error_not_a_panic() {
+        assert!(render(&json!([]), "json").is_err());
+        assert!(render(&json!({"objects": [{"kind": "register"}]}), "dsl").is_err());
+        assert!(render(&json!({"objects": [{"name": "x"}]}), "yaml").is_err());
+        assert!(render(&json!({"objects": 5}), "toml").is_err());
+        assert!(render(&json!({"objects": []}), "xml").is_err());
+    }
+}
